@@ -52,7 +52,9 @@ def strip_comments(src):
 
 def lean_files():
     res = []
-    for root, _, files in os.walk(SRC):
+    for root, dirs, files in os.walk(SRC):
+        # DitModel/Wip/ is scratch space for proofs in progress: git-ignored, imported by nothing, never built by a check
+        dirs[:] = [d for d in dirs if d != 'Wip']
         for f in sorted(files):
             if f.endswith('.lean'):
                 res.append(os.path.join(root, f))
